@@ -17,14 +17,14 @@ CHECKS = {
             'numpy/astropy arithmetic trusted; df >= 4096 ulp(fch1) (the property\'s realistic-ratio domain); exact half-channel ties excluded and counted',
             'DESIGN.md 3/C05'),
     'C18': ('exploration',
-            'model-based stateful testing: generated op-lists applied in lock-step to the cadence and a plain list model, invariant after every op',
+            'model-based stateful testing: generated op-lists applied in lock-step to the cadence and a plain list model, invariant after every op; thorough tier adds coverage-guided fuzzing (atheris/libFuzzer) of the same oracle through a byte decoder',
             'Generated histories of list operations over compatible, incompatible and non-frame objects are run '
             'against Cadence/OrderedCadence and a Python-list reference model; identity, order, rejection without '
             'side effect, order labels, by_label and aggregate properties are compared after every operation.',
             'Python list semantics are the model; tuples/empty index lists/slice assignment not generated; set_order only with long-enough orders',
             'DESIGN.md 3/C18'),
     'C09': ('exploration',
-            'model-based stateful testing of quantiser call histories against a reference model (refresh counter + cached statistics), exact per-sample prediction',
+            'model-based stateful testing of quantiser call histories against a reference model (refresh counter + cached statistics), exact per-sample prediction; thorough tier adds coverage-guided fuzzing (atheris/libFuzzer) of the same oracle through a byte decoder',
             'Generated quantiser configurations and call histories (inputs from eight distributions incl. constant/huge/tiny, '
             'custom deviations, cache resets, all refresh periods) are predicted sample-for-sample by a reference model; '
             'range, integrality, monotonicity, absence of NaN/RuntimeWarning and independence of re/im are checked on every call.',
